@@ -293,4 +293,44 @@ theorem move_dir_to_missing (fuel : Nat) (t : Tree) (src dest : Path) (t' : Tree
       | content k => simp only [hkeep, hmiss, Option.some.injEq, Prod.mk.injEq, true_and] at h; exact fin _ h.symm
       | size k => simp only [hkeep, hmiss, Option.some.injEq, Prod.mk.injEq, true_and] at h; exact fin _ h.symm
 
+/-! ### CopyToDirectory / CopyToFile -/
+
+theorem StepFrame.trans {t t1 t2 : Tree} {T : List Path} (h1 : StepFrame t t1 T) (h2 : StepFrame t1 t2 T) :
+    StepFrame t t2 T := by
+  intro q hq
+  rcases h1 q hq with a | ⟨a1, a2, a3⟩
+  · rcases h2 q hq with b | ⟨b1, b2, b3⟩
+    · exact Or.inl (b.trans a)
+    · exact Or.inr ⟨a ▸ b1, b2, b3⟩
+  · rcases h2 q hq with b | ⟨b1, _, _⟩
+    · exact Or.inr ⟨a1, b.trans a2, a3⟩
+    · rw [a2] at b1; cases b1
+
+/-- FRAME of CopyToDirectory: nothing outside the destination directory is altered or removed; the only additions
+    outside it are the missing directories on the way to it -/
+theorem copyToDirectory_frame (t : Tree) (s d : Path) (sl : Bool) (r : Res) (t' : Tree)
+    (h : copyToDirectory t s d sl = some (r, t')) : StepFrame t t' [d] := by
+  unfold copyToDirectory at h
+  split at h
+  · cases h
+  · rename_i e t1 hm
+    simp only [Option.some.injEq, Prod.mk.injEq] at h
+    rw [← h.2]; exact step_frame t (.mkdir d) _ _ hm
+  · rename_i r1 t1 _ hm
+    exact (step_frame t (.mkdir d) _ _ hm).trans (step_frame t1 (.cp s d sl) _ _ h)
+
+/-- FRAME of CopyToFile -/
+theorem copyToFile_frame (t : Tree) (s d : Path) (sl : Bool) (r : Res) (t' : Tree)
+    (h : copyToFile t s d sl = some (r, t')) : StepFrame t t' [d] := by
+  unfold copyToFile at h
+  split at h
+  · simp only [Option.some.injEq, Prod.mk.injEq] at h; rw [← h.2]; exact StepFrame.refl _ _
+  · split at h
+    · split at h
+      · simp only [Option.some.injEq, Prod.mk.injEq] at h; rw [← h.2]; exact StepFrame.refl _ _
+      · exact step_frame t (.cp s d false) _ _ h
+    · split at h
+      · simp only [Option.some.injEq, Prod.mk.injEq] at h; rw [← h.2]; exact StepFrame.refl _ _
+      · exact step_frame t (.cp s d false) _ _ h
+
 end GoUtils.Fs
